@@ -12,16 +12,30 @@ import Driver.Ledger
 import Driver.Effects
 import Driver.Par
 import Driver.Traits
+import Driver.Mirror
 
 open Driver
 
-def dispatch (w : World) (ws : List String) : World × String :=
+/-- number of lines that were also run through `History.run` (reported on stderr at the end) -/
+initialize mirrored : IO.Ref Nat ← IO.mkRef 0
+
+def dispatch' (w : World) (ws : List String) : World × String × Bool :=
   match (cmdIndex ws <|> cmdConstruct ws <|> cmdScalar ws <|> cmdFmt ws <|> cmdEffects ws <|> cmdPar ws <|> cmdTraits ws) with
-  | some s => (w, s)
+  | some s => (w, s, false)
   | none =>
     match stepHist w ws with
-    | some r => r
-    | none => (w, "bad-op")
+    | some (w', s) =>
+      -- the same line through `History.run` (Driver/Mirror.lean): must leave the same registers
+      match mirror w w' ws s with
+      | some false => (w', s ++ " | HISTORY-STEP-DISAGREES", true)
+      | some true => (w', s, true)
+      | none => (w', s, false)
+    | none => (w, "bad-op", false)
+
+def dispatch (w : World) (ws : List String) : IO (World × String) := do
+  let (w', s, m) := dispatch' w ws
+  if m then mirrored.modify (· + 1)
+  pure (w', s)
 
 partial def loop (h : IO.FS.Stream) (out : IO.FS.Stream) (w : World) (ls : LedState) : IO Unit := do
   let line ← h.getLine
@@ -34,14 +48,14 @@ partial def loop (h : IO.FS.Stream) (out : IO.FS.Stream) (w : World) (ls : LedSt
   else if l.startsWith "L " then
     -- C01: the operation, followed by the ledger delta the ownership model predicts
     let ws := (l.drop 2).toString.splitOn " "
-    let (w', s) := dispatch w ws
+    let (w', s) ← dispatch w ws
     let head := ((s.splitOn " | ").headD "")
     let head := if head.startsWith "ok" then "ok" else head
     let (ls', d) := ledFlow ls w ws head
     out.putStrLn (s ++ s!" | led +{d.1} -{d.2}")
     loop h out w' ls'
   else
-    let (w', s) := dispatch w (l.splitOn " ")
+    let (w', s) ← dispatch w (l.splitOn " ")
     out.putStrLn s
     loop h out w' ls
 
@@ -49,3 +63,4 @@ def main : IO Unit := do
   let out ← IO.getStdout
   loop (← IO.getStdin) out {} {}
   out.flush
+  IO.eprintln s!"history-mirror: {← mirrored.get} lines also run through History.run"
